@@ -118,6 +118,14 @@ pub fn oracle(case: &ExecCase, obs: &mut Obs) -> Result<(), Violation> {
                 );
                 obs.label("out-of-gas");
             } else if matches!(class, ErrClass::OutOfGasInCompute) {
+                // "... before that operation has any effect": nothing of the children reaches the parent's memory
+                ensure!(
+                    mstate.memory == out.fin.memory,
+                    "gas:oog-effect",
+                    "Compute at op {index} failed with out-of-gas, but the parent's memory changed: {} words before, {} after",
+                    mstate.memory.len(),
+                    out.fin.memory.len()
+                );
                 obs.label("out-of-gas-in-compute");
             } else {
                 obs.label("other-error");
